@@ -176,5 +176,7 @@ def _run(ctx, w):
 def run(ctx, w):
     _run(ctx, w)
     # the commands of this property must first of all be DECODED as specified (selector values, parameter slots, finals)
-    from rules import c03, shared
+    from rules import c03, shared, tables as _tb
     shared.embed(ctx, w, c03.dispatch_rules)
+    # the parser is in its power-on state after the reset: no parameter cell / intermediate survives a clear
+    shared.embed(ctx, w, lambda c, ww: c03.run_t7(c, ww, _tb.parser_tables(ww)))
